@@ -25,7 +25,7 @@ func init() {
 		},
 		NumCases: func(tier string) int {
 			if tier == "thorough" {
-				return 1000000
+				return 4000000
 			}
 			return 80000
 		},
